@@ -633,9 +633,16 @@ impl Client {
             .writer
             .lock()
             .map_err(|_| poisoned_lock_error("client writer"))?;
-        write_message(&mut *writer, msg)?;
-        writer.flush()?;
-        Ok(())
+        let result = write_message(&mut *writer, msg).and_then(|()| Ok(writer.flush()?));
+        if result.is_err() {
+            // A failed or timed-out write (`set_write_timeout`) may already have put
+            // part of this frame on the wire. Anything written after it would be
+            // read by the peer as the rest of that frame, so the connection cannot
+            // be used again: shut it down, which also fails every call in flight
+            // through the response loop.
+            let _ = writer.get_ref().shutdown(Shutdown::Both);
+        }
+        result
     }
 
     fn remove_pending(&self, id: u64) {
